@@ -466,8 +466,34 @@ func (g *Gen) GenFunc(fn *ssa.Function, spec *FuncSpec) (vc *FnVC, err error) {
 	v.entryEnv = env
 	for i, p := range fn.Params {
 		s := sortOf(p.Type())
-		if s == "STRUCT" || s == "TUPLE" {
+		if s == "TUPLE" {
 			unsupported("parameter %s of type %s", p.Name(), p.Type())
+		}
+		if s == "STRUCT" {
+			st, ok := p.Type().Underlying().(*types.Struct)
+			if !ok || !flatStruct(p.Type()) {
+				unsupported("parameter %s of type %s", p.Name(), p.Type())
+			}
+			fields := map[string]Val{}
+			for k := 0; k < st.NumFields(); k++ {
+				f := st.Field(k)
+				fs := sortOf(f.Type())
+				pn := "p_" + sanitize(p.Name()) + "_" + sanitize(f.Name())
+				var t *Term
+				if fs == SSlice {
+					t = MkSlice(v.declare(pn+".ref", SInt), v.declare(pn+".off", SInt), v.declare(pn+".len", SInt), v.declare(pn+".cap", SInt))
+					v.paramConsts[pn+".ref"] = true
+					belowBase[pn+".ref"] = true
+				} else {
+					t = v.declare(pn, fs)
+				}
+				v.assume(True, v.typeInv(t, f.Type(), v.entry), "type")
+				fields[f.Name()] = Val{T: t, Typ: f.Type()}
+			}
+			val := Val{Typ: p.Type(), Fields: fields}
+			v.regs[p] = val
+			env.vars[p.Name()] = val
+			continue
 		}
 		var t *Term
 		if s == SSlice {
@@ -579,8 +605,11 @@ func (g *Gen) preamble(v *FnVC) string {
 	b.WriteString("(set-logic ALL)\n")
 	b.WriteString("(declare-datatypes ((Slice 0)) (((mk-slice (s-ref Int) (s-off Int) (s-len Int) (s-cap Int)))))\n")
 	fmt.Fprintf(&b, "(define-fun valid-slice ((s Slice)) Bool (and (>= (s-ref s) 0) (>= (s-off s) 0) (>= (s-len s) 0) (<= (s-len s) (s-cap s)) (<= (+ (s-off s) (s-cap s)) %s) (=> (= (s-ref s) 0) (= (s-cap s) 0))))\n", maxLenBig.String())
-	b.WriteString("(define-fun godiv ((a Int) (b Int)) Int (ite (>= a 0) (div a b) (- (div (- a) b))))\n")
-	b.WriteString("(define-fun gomod ((a Int) (b Int)) Int (- a (* b (ite (>= a 0) (div a b) (- (div (- a) b))))))\n")
+	// Go's truncated division: declared symbols with definitional axioms, so that
+	// godiv/gomod applications survive as terms and can serve as triggers
+	b.WriteString("(declare-fun godiv (Int Int) Int)\n(declare-fun gomod (Int Int) Int)\n")
+	b.WriteString("(assert (forall ((a Int) (b Int)) (! (= (godiv a b) (ite (>= a 0) (div a b) (- (div (- a) b)))) :pattern ((godiv a b)))))\n")
+	b.WriteString("(assert (forall ((a Int) (b Int)) (! (= (gomod a b) (- a (* b (ite (>= a 0) (div a b) (- (div (- a) b)))))) :pattern ((gomod a b)))))\n")
 	b.WriteString("(declare-fun trig (Int) Bool)\n(assert (forall ((x Int)) (! (trig x) :pattern ((trig x)))))\n")
 	// pow2 table
 	b.WriteString("(define-fun pow2 ((n Int)) Int ")
